@@ -48,9 +48,79 @@ def run(tier):
         chk.cov["replayed_transitions_" + nm] = ntr
         bc.judge(chk, tp, scripts, CLAUSES, concurrent=True)
         chk.sample({"script": scripts[-1]["id"], "cf": scripts[-1]["cf"], "steps": scripts[-1]["steps"][:16]})
+    system_level(chk, sd)
     chk.cov["exhaustive"] = True
     chk.cov["rule"] = ("every transition of the TLA+ breaker model (all interleavings of its critical sections) "
                        "is executed on the real breaker via covering walks; a case = one replayed walk")
     chk.assumptions += ["one model tick = 1 s of virtual time; bounds of k ticks are configured as k+0.5 s",
                         "Go faketime runtime clock is faithful to time.Now/Sleep semantics"]
     return chk.finish()
+
+
+def system_level(chk, sd):
+    """'Failed proxied requests (5xx, unreachable backend, aborted response) are what count as failures':
+    the sequential breaker model's walks are replayed through the whole balancer pipeline (lbsim, breaker
+    enabled in the configuration), each model call becoming one client request whose backend exchange ends
+    ok / 5xx / refused / aborted; the client-visible events are mapped 1:1 to the breaker observer's."""
+    import os, json
+    import pool_common as pc
+    binp = pc.build_lbsim(sd)
+    r = bc.tlc_with_cfg("MCBreaker", bc.gen_cfg_text([1], "CfgSys", False), "gen.cfg", workers=8, timeout=900)
+    ws, stats = vlib.walks(r, max_len=200)
+    scripts = []
+    for variant, errplan in (("5xx", "s500"), ("refused", "refuse")):
+        for j, w in enumerate(ws):
+            cf = w["cf"]
+            steps, rid = [], 0
+            for a in w["acts"]:
+                if a["a"] == "call":
+                    rid += 1
+                    plan = {"ok": "ok", "err": errplan, "panic": "abort"}[a["o"]]
+                    steps.append({"a": "req", "id": rid, "client": "10.0.0.1", "plan": plan})
+                elif a["a"] == "tick":
+                    steps.append({"a": "tick", "n": 1})
+            scripts.append({"id": "sys-%s-%d-%d" % (variant, w["init"], j), "bcf": cf,
+                            "cfg": {"strategy": "round_robin", "backends": [{"name": "b1", "w": 1}],
+                                    "passive": {"on": False, "thr": 1, "win": 1}, "active": {"on": False, "iv": 1},
+                                    "cb": {"on": True, "ft": cf["ft"], "st": cf["st"], "mr": cf["mr"], "iv": cf["iv"], "to": cf["to"]}},
+                            "steps": steps})
+    tp = pc.replay(binp, scripts, sd, "sys")
+    # 1:1 mapping of the balancer-level events to the breaker observer's vocabulary
+    by_id = {s["id"]: s for s in scripts}
+    out = []
+    disp = set()
+    for e in vlib.read_ndjson(tp):
+        if e["ev"] == "cfg":
+            out.append({"ev": "cfg", "id": e["id"], "cf": by_id[e["id"]]["bcf"]})
+            disp = set()
+        elif e["ev"] == "tick":
+            out.append({"ev": "tick", "n": e["n"]})
+        elif e["ev"] == "req":
+            out.append({"ev": "call", "c": 1})
+        elif e["ev"] == "dispatch":
+            disp.add(e["id"])
+            out.append({"ev": "admit", "c": 1})
+        elif e["ev"] == "reply":
+            if e["kind"] == "cb_open":
+                out.append({"ev": "reject", "c": 1, "kind": "open"})
+            elif e["kind"] == "cb_too_many":
+                out.append({"ev": "reject", "c": 1, "kind": "many"})
+            elif e["id"] in disp:
+                failed = e["kind"] == "aborted" or e["status"] >= 500
+                out.append({"ev": "done", "c": 1, "o": "err" if failed else "ok", "state": "none"})
+            else:
+                out.append({"ev": "drift", "why": "reply without dispatch: " + e["kind"], "c": 1})
+    mp = os.path.join(sd, "sys.mapped.ndjson")
+    vlib.write_ndjson(mp, out)
+    chk.cov["traces_validated_against_impl"] += len(scripts)
+    chk.cov["replayed_transitions_system_level"] = stats["transitions"] * 2
+    viols, pr = vlib.observe("ObsBreakerTrace", "ObsBreakerTrace.cfg", mp)
+    chk.add_tlc("P:ObsBreakerTrace over balancer-level replay", pr)
+    for v in viols:
+        for vv in v["v"]:
+            if vv["clause"] not in CLAUSES:
+                continue
+            sc = by_id.get(v["seg"], {})
+            sig = {"clause": vv["clause"], "mode": vv["mode"], "cause": vv["cause"], "info": vv["info"],
+                   "class": "system-" + v["seg"].split("-")[1], "cf": sc.get("bcf")}
+            chk.violation(sig, [{"script": sc}] + pc.segment(tp, v["seg"]), name="%s-%s.ndjson" % (vv["clause"], v["seg"]))
